@@ -119,8 +119,8 @@ class RngDiscipline:
             fi = C.lookup_after(fi.cls, "set_rng") if calls_super and fi.cls is not None else None
         return out
 
-    def explore(self, C: Optional[ClassInfo], entries: List[FuncInfo], extra_ok: Optional[Set[Term]] = None
-                ) -> Tuple[List[Event], List[str]]:
+    def explore(self, C: Optional[ClassInfo], entries: List[FuncInfo], extra_ok: Optional[Set[Term]] = None,
+                assume=None) -> Tuple[List[Event], List[str]]:
         """-> (events, analysed function names)."""
         events: List[Event] = []
         analysed: List[str] = []
@@ -135,6 +135,8 @@ class RngDiscipline:
             seen.add(key)
             analysed.append(f"{fi.module.relpath}:{fi.qualname}")
             fa = fa_of(self.prog, fi)
+            if assume and depth == 0:
+                fa = fa.prune(assume)
             at = self.types.of(C) if C is not None else {}
 
             def rng_ok(t: Term) -> bool:
